@@ -303,6 +303,11 @@ func (c *Context) HandleEnvelop(envelop vivid.Envelop) {
 	currentState := atomic.LoadInt32(&c.state)
 	killingOrKilled := (currentState == killed) || (!envelop.System() && currentState != running) // 是否处于停止中或死亡状态
 	if killingOrKilled && !c.zombie {                                                             // 是否处于僵尸状态
+		if c.parent == nil {
+			// 根 Actor 是死信的最终归宿，其停止（中）后已无处可投；
+			// 若仍包装为死信投递给自身，每条死信会再次产生一条发给自身的死信，形成永不停止的循环，因此直接丢弃
+			return
+		}
 		c.system.TellSelf(ves.DeathLetterEvent{
 			Envelope: envelop,
 			Time:     time.Now(),
